@@ -114,7 +114,13 @@ fn render(k: usize, case: &Value, pts: &[Option<i128>]) -> Rendered {
             "|" => format!("({}..{} | {}{e})", bound(pts, lo), bound(pts, hi), second(pts)),
             "^" => format!("({}..{} ^ {}{e})", bound(pts, lo), bound(pts, hi), second(pts)),
             "serial" => format!("({}..{})({}{e})", bound(pts, lo), bound(pts, hi), second(pts)),
-            _ => format!("({}..{}{e})", bound(pts, lo), bound(pts, hi)),
+            // open range ends: the same range spelled with the neighbouring boundary point and "<"
+            _ => match case["form"].as_str().unwrap_or("range") {
+                "open_lo" => format!("({}<..{}{e})", bound(pts, lo - 1), bound(pts, hi)),
+                "open_hi" => format!("({}..<{}{e})", bound(pts, lo), bound(pts, hi + 1)),
+                "open_both" => format!("({}<..<{}{e})", bound(pts, lo - 1), bound(pts, hi + 1)),
+                _ => format!("({}..{}{e})", bound(pts, lo), bound(pts, hi)),
+            },
         }
     };
     let val = case["val"].as_u64().unwrap_or(0) as usize;
